@@ -256,6 +256,9 @@ def check(ctx):
                f"{fcls_} built on ({cs_}, {ls_}) presents {len(inv_)} devices: duplicate keys {dup_k[:4]}, duplicate unique ids {dup_u[:3]}, get_device(key) returns another device for {wrong[:4]}",
                repo.method(fcls_, "get_device").loc, sample={"rule": "R10", "facade": fcls_, "platform": plat, "devices": len(inv_)} if plat.startswith("inyt") else None)
     ctx.floor("R10", "facade inventories interpreted", n10, 10)
+    ctx.rule("R11", "for ANY status block: an output byte that is not in the item's label list (one past the last option included) reads 'Unknown' - not wired to a known device - and never raises out of the scan (C11.R4's enum decode over all 256 raw bytes borrowed)")
+    from .c11 import enum_decode_total as _edt
+    _edt(ctx.borrowed("R11", "C11"), repo, "R4")
     ctx.rule("R9", "a pump's mode list is its own demand item's label list, whatever other pumps exist in the process: two GeckoPump objects built by the constructor in one interpreter - same device key and demand tag, different label lists (as for P3 on inXM vs the other platforms) - each report their own list, in either order of asking")
     from ..absint import ClassRef as _CR, Interp as _I, PyRaise as _PR, Undecided as _U
     from ..facademodel import Rec as _Rec, accessor as _acc, model_facade as _mf
